@@ -68,6 +68,10 @@ def setup_env(P, servertype):
         return {"byvalue": True, "serial": d.get("serial"), "label": d.get("label"), "classname": classname}
     for cn in ("checks.c16_items.Item", "checks.c16_items.Other"):
         P.serializers.SerializerBase.register_dict_to_class(cn, conv)
+    # a second daemon in the same process that (un)registers objects of the very same classes now and then: what one daemon does with
+    # its registry must not change how the other daemon's registered objects travel
+    fx.sibling = fixture.Fixture(servertype=servertype, COMMTIMEOUT=0.0)
+    fx.sibling_objs = []
     return fx, pool
 
 
@@ -93,6 +97,8 @@ def gen_history(r, n):
         steps.append(("register", a, r.choice(["alpha", None]), False, r.random() < 0.6))
         steps.append(("register", b, r.choice(["beta", None]), False, r.random() < 0.3))
         steps.append(r.choice([("unregister_obj", b), ("unregister_id", "beta"), ("unregister_id", "@gen"), ("del", b)]))
+        if r.random() < 0.4:
+            steps.append(("sibling", "reg-item" if a in (0, 1, 3) else "reg-other"))
         steps.append(("give", a, ser, False))
         steps.append(("give", "@reg", ser, r.random() < 0.3))
     for _ in range(n):
@@ -116,8 +122,10 @@ def gen_history(r, n):
         elif k < 0.93:
             # "@reg": an object that is registered at that moment (chosen when the step runs), so that the auto-proxy path is exercised often
             steps.append(("give", r.choice([0, 1, 2, 3, 4, "@reg", "@reg", "@reg", "@reg"]), r.choice(fixture.SERIALIZERS), r.random() < 0.2))
-        elif k < 0.97:
+        elif k < 0.955:
             steps.append(("del", r.choice([0, 1, 2, 3, 4])))
+        elif k < 0.97:
+            steps.append(("sibling", r.choice(["reg-item", "reg-other", "unreg", "reg-item"])))
         else:
             steps.append(("listing",))
     steps.append(("listing",))
@@ -228,6 +236,17 @@ def run_history(fx, pool, hist, rec, hh):
                     if victim in ("Pyro.Daemon",):
                         continue
                     model.ids.pop(victim, None)
+            elif kind == "sibling":
+                d2 = fx.sibling.daemon
+                if st[1] == "unreg":
+                    if fx.sibling_objs:
+                        d2.unregister(fx.sibling_objs.pop())
+                else:
+                    o2 = (items.Item if st[1] == "reg-item" else items.Other)("sib%d" % step)
+                    d2.register(o2)
+                    fx.sibling_objs.append(o2)
+                    o2 = None
+                rec.count("sibling_daemon_steps")
             elif kind == "unregister_daemon_obj":
                 # the daemon's own object, handed to unregister as an OBJECT (by id is a separate step): ignored or refused, never removed
                 dobj = d.objectsById.get("Pyro.Daemon")
@@ -473,6 +492,7 @@ def run_shard(shard, rec):
             if kind == "thread-exception":
                 rec.violation("server-thread-fault", text, None)
     finally:
+        fx.sibling.stop()
         fx.stop()
 
 
@@ -484,4 +504,5 @@ def replay(payload, rec):
             print(i, s)
         run_history(fx, pool, payload["history"], rec, "replay")
     finally:
+        fx.sibling.stop()
         fx.stop()
